@@ -10,6 +10,18 @@ NOTE = ("Trusted: Lean 4.33 kernel; axioms propext / Classical.choice / Quot.sou
         "standards. CPython's re/str/int semantics are modelled, not verified.")
 
 CLAIMS = {
+    "C03": dict(
+        text="Lean 4 theorems for every country table and every accepted compact IBAN of any length: a same-kind "
+             "substitution anywhere in the BBAN or in either check digit, and an adjacent same-kind transposition "
+             "inside the BBAN, of the check digits, of the two country letters, and across the check-digit/BBAN "
+             "boundary (for texts of at most 34 characters, which table_wf guarantees) is NOT accepted. Proof: "
+             "positional expansion of the letter-expanded number, 10 is a unit mod 97, every single-character delta "
+             "(times 1, 9 or 99) is non-zero mod 97, and 10^K is not 1 mod 97 for 0 < K < 96 (kernel-decided). Lifted "
+             "to the validating constructor through the C01 equivalence. Tied to the code by the C01 correspondence "
+             "and a mutation stream over all countries (letter-rich IBANs included).",
+        design="7 (C03)",
+        technique="Lean 4 proof (number theory mod 97 by induction and omega; decide +kernel for the order of 10) + "
+                  "differential correspondence on systematic single-error mutants"),
     "C13": dict(
         text="PARTIAL. BBAN.random / IBAN.random are modelled in Lean as pure functions of the arguments and an explicit "
              "choice record (bank index chosen, raw rstr.xeger strings per attempt). Theorems for EVERY choice record, "
